@@ -1,12 +1,12 @@
 #!/bin/bash
-# usage: tools/mut.sh <prop> <patch.diff>   -- applies the patch to the scratch worktree /tmp/mut (reset to /repo HEAD), runs the check there
+# usage: tools/mut.sh <prop> <patch.diff>   -- applies the patch to the scratch worktree /tmp/mut4 (reset to /repo HEAD), runs the check there
 set -u
 PROP=$1; PATCH=$2
-git -C /tmp/mut checkout -q --detach $(git -C /repo rev-parse HEAD) 2>/dev/null
-git -C /tmp/mut checkout -q -- . ; git -C /tmp/mut clean -fdq
-git -C /tmp/mut apply "$PATCH" || { echo "PATCH DOES NOT APPLY"; exit 3; }
-mkdir -p /tmp/mut-verif && cp /verif/properties.jsonl /verif/known_findings.json /tmp/mut-verif/
-VERIF_REPO=/tmp/mut /verif/bin/vcheck -verif /tmp/mut-verif -prop $PROP -tier ${3:-quick} | grep -v '^rule ' | grep -v '^VIOLATION property' | cut -c1-400
+git -C /tmp/mut4 checkout -q --detach $(git -C /repo rev-parse HEAD) 2>/dev/null
+git -C /tmp/mut4 checkout -q -- . ; git -C /tmp/mut4 clean -fdq
+git -C /tmp/mut4 apply "$PATCH" || { echo "PATCH DOES NOT APPLY"; exit 3; }
+mkdir -p /tmp/mut4-verif && cp /verif/properties.jsonl /verif/known_findings.json /tmp/mut4-verif/
+VERIF_REPO=/tmp/mut4 /verif/bin/vcheck -verif /tmp/mut4-verif -prop $PROP -tier ${3:-quick} | grep -v '^rule ' | grep -v '^VIOLATION property' | cut -c1-400
 rc=${PIPESTATUS[0]}
-git -C /tmp/mut checkout -q -- . ; git -C /tmp/mut clean -fdq
+git -C /tmp/mut4 checkout -q -- . ; git -C /tmp/mut4 clean -fdq
 echo "exit=$rc"
